@@ -45,6 +45,27 @@ def table_stage(ctx: Ctx, dialects, spark_exec=None):
             ctx.count_case(("table", d, r["role"], r["sqlname"], r["ge"], r["registered"], r["kind"]), True,
                            {"dialect": d, **{k: r[k] for k in ("role", "sqlname", "ge", "registered", "kind")}})
             ctx.hist("table_rows_per_dialect", d)
+    # the function each role emits must return the same values on every backend on metric-distinguishing pairs
+    if "duckdb" in table and spark_exec is None:
+        execs = {d: D.engine_exec(d) for d in table}
+        for r in table["duckdb"]:
+            for d in table:
+                o = next((x for x in table[d] if x["role"] == r["role"]), None)
+                if d == "duckdb" or o is None or not (r["registered"] and o["registered"]):
+                    continue
+                try:
+                    a, b = D.probe_values(execs["duckdb"], r["sqlname"]), D.probe_values(execs[d], o["sqlname"])
+                except Exception as e:
+                    ctx.obligation(f"probe {r['role']} on {d}", False, repr(e)[:200])
+                    continue
+                k = next((i for i, (x, y) in enumerate(zip(a, b)) if abs(x - y) > 1e-9), None)
+                ctx.obligation(f"{r['role']}: {o['sqlname']} on {d} = {r['sqlname']} on duckdb on {len(a)} metric-distinguishing pairs", k is None)
+                for i, p_ in enumerate(D.PROBE_PAIRS):
+                    ctx.count_case(("probe", r["role"], d, p_), a[i] != 0, None)
+                if k is not None:
+                    ctx.violation(f"{d}: {o['sqlname']}{D.PROBE_PAIRS[k]} = {b[k]} but duckdb {r['sqlname']} = {a[k]} (role {r['role']})",
+                                  {"case": {"dialect": d, "role": r["role"], "values": list(D.PROBE_PAIRS[k]), "sql": o["sql"]},
+                                   "implementation": b[k], "specification": a[k]}, {"dialect": d, "role": r["role"]})
     if not good:
         for d, role in re.findall(r'\("(\w+)", "(\w+)"\)', flat):
             r = next(x for x in table[d] if x["role"] == role)
@@ -72,9 +93,15 @@ Import ListNotations. Open Scope string_scope.
     untranslated = set()
     for inst in L.level_grid(ctx.tier):
         trees = {}
+        # ONE creator object is asked for all three dialects in turn (a creator must not remember anything dialect-specific);
+        # string date-difference levels re-wrap their column on every call (DESIGN 7.10, C17) and get fresh creators
+        reuse = not (inst.kind == "timediff" and inst.meta["is_string"])
+        creator = inst.make()
         for d in ("duckdb", "sqlite", "spark"):
+            sql_d = None
             try:
-                trees[d] = (L.parse_sql(L.current_sql(inst, d), d), L.current_sql(inst, d))
+                sql_d = (creator if reuse else inst.make()).get_comparison_level(d).sql_condition
+                trees[d] = (L.parse_sql(sql_d, d), sql_d)
             except (ValueError, NotImplementedError):
                 continue
             except L.Untranslatable as e:
@@ -83,7 +110,7 @@ Import ListNotations. Open Scope string_scope.
                     continue
                 untranslated.add((inst.family, d))
                 ctx.violation(f"{inst.family}: the SQL emitted for {d} leaves the fragment every dialect's SQL of this creator is in: {str(e)[:150]}",
-                              {"case": {"level": inst.key, "dialect": d, "sql": L.current_sql(inst, d)},
+                              {"case": {"level": inst.key, "dialect": d, "sql": sql_d, "creator_reused_after": "duckdb" if reuse else None},
                                "implementation": str(e)[:300], "specification": "same expression shape as the other dialects"},
                               {"dialect": d, "level": inst.family, "sql_level": True})
         for other in ("sqlite", "spark"):
